@@ -430,6 +430,51 @@ pub fn run_c05_c17(prop: &'static str, tier: Tier) -> ! {
         );
         acc.tally.merge(tally);
     }
+    if tier == Tier::Thorough && !wrap_phase {
+        // Counters of 32 bits: one noise run beyond 2^32 bytes before a start sequence, before
+        // finalize and inside a frame (four directed paths, one thread each; 4.3e9 push_byte calls each)
+        let giant: Vec<Vec<Sym>> = vec![
+            vec![Sym::Run(0x55, (1u64 << 32) + 37), Sym::Esc, Sym::Som, Sym::Esc, Sym::Tail(0)],
+            vec![Sym::Run(0x1b, (1u64 << 32) - 1), Sym::B(0x1b), Sym::Som, Sym::Fin],
+            vec![Sym::Run(0x00, 1u64 << 32), Sym::Fin],
+            vec![Sym::Esc, Sym::Som, Sym::Run(0x00, (1u64 << 32) + 2), Sym::Reset],
+        ];
+        let res = par_chunks(giant.len() as u64, 1, |a, _b| {
+            // same rule as exploration and replay: stop at the first finding that leaves monitor and
+            // decoder out of step (e.g. a panic)
+            let p = &giant[a as usize];
+            let mut n = Node::new(BufKind::Arr(1));
+            let mut g = Gen2::default();
+            let mut findings = vec![];
+            for &s in p {
+                let mut info = StepInfo::default();
+                n.apply(s, &mut info, &mut g);
+                g.1.clear();
+                let desync = info.findings.iter().any(|(c, _)| crate::mon::is_desync(c));
+                findings.extend(info.findings);
+                if desync {
+                    break;
+                }
+            }
+            findings
+        });
+        for (p, findings) in giant.iter().zip(res) {
+            acc.transitions += p.len() as u64;
+            acc.counts.inc("directed paths with a run of more than 2^32 bytes");
+            for (class, what) in findings {
+                if report.iter().any(|r| class.starts_with(r)) {
+                    acc.tally.add(Viol {
+                        class: class.to_string(),
+                        key: format!("ArrayBuf<1>:{}", path_str(p).replace(' ', ",")),
+                        what,
+                        case: J::obj().set("engine", "e1").set("mode", "path").set("buf", "ArrayBuf<1>").set("path", path_str(p)),
+                        size: p.len(),
+                    });
+                }
+            }
+        }
+        ctx.log("giant runs (> 2^32 bytes): done");
+    }
     if prop == "C05" && !wrap_phase {
         // encoders: totality incl. payloads >= 2^16 (panic classes of the C07 sweep)
         let longs = crate::e2::long_payloads(tier, &crate::e2::PI);
